@@ -19,11 +19,11 @@ ASSUMPTIONS = ["band: -eps <= v*-x <= threshold*T + eps, T = exact max expected 
 TIMEOUT = 1800
 
 CLASSES_Q = [("G-ACY", 700), ("G-ACYNF", 200), ("G-CYC", 700), ("G-CYCNF", 150), ("G-SLOW", 250), ("G-EC", 500),
-             ("G-TIE", 250), ("G-TIEC", 250), ("G-DEAD", 500), ("G-TINY", 150), ("G-LEX", 250), ("G-TINYB", 200), ("G-INIT0F", 100), ("G-INIT0NF", 100), ("G-NOREACH", 100), ("G-NEARC", 100), ("G-MIX", 500), ("G-SMALLX", 500), ("G-VSLOWR", 2), ("G-LATE", 200), ("G-HALF", 60), ("G-EMPTY", 200), ("G-GAP", 600), ("G-GAPLOOP", 60), ("G-CORR", 100), ("G-RETRY", 150)]
+             ("G-TIE", 250), ("G-TIEC", 250), ("G-DEAD", 500), ("G-TINY", 150), ("G-LEX", 250), ("G-TINYB", 200), ("G-INIT0F", 100), ("G-INIT0NF", 100), ("G-NOREACH", 100), ("G-NEARC", 100), ("G-MIX", 500), ("G-SMALLX", 500), ("G-VSLOWR", 2), ("G-LATE", 200), ("G-HALF", 60), ("G-EMPTY", 200), ("G-GAP", 600), ("G-GAPLOOP", 60), ("G-CORR", 100), ("G-RETRY", 150), ("G-FINREP", 300)]
 THRESHOLDS = [1e-2, 1e-4, 1e-9]
 
 
-def plan(tier, seed):
+def _plan_base(tier, seed):
     mult = 1 if tier == "quick" else 14
     b = []
     for cls, k in CLASSES_Q:
@@ -187,7 +187,16 @@ def decide(gd, idx, cls, do_thresholds=True, do_run_games=False):
     return res
 
 
+def plan(tier, seed):
+    from . import threads_common
+    return threads_common.plan_threads(tier) + _plan_base(tier, seed)
+
+
 def run_batch(batch):
+    if batch["cls"] == "THREADS":
+        from . import threads_common
+        yield from threads_common.run(batch, PID, ["probabilities"], EMIT_START, 'solve', None)
+        return
     monitors.install()
     monitors.MON.flags.update(alias=False, prune=False)
     cls, seed = batch["cls"], batch["seed"]
@@ -206,6 +215,9 @@ def run_batch(batch):
 
 
 def replay(case):
+    if "threads" in case:
+        from . import threads_common
+        return threads_common.replay(case, PID, ["probabilities"], 'solve', None)
     monitors.install()
     monitors.MON.flags.update(alias=False, prune=False)
     if "game" in case:
